@@ -969,6 +969,58 @@ Theorem remove_node_then_commit_with_smaller_quorum_nonvacuous :
 Proof. exact remove_node_then_commit_with_smaller_quorum. Qed.
 Print Assumptions remove_node_then_commit_with_smaller_quorum_nonvacuous.
 
+(* ---------------------------------------------------------------- round 7: invariants towards the unconditional theorem *)
+From BLB Require Import Raft.MemberPeers.
+
+(* [FULL] invariant (d), node level, any event, crash variants included: if the ids in the peer table of a leader are exactly the
+   members of the configuration it holds minus itself before the event, the same holds after it; a newly elected leader builds
+   the table from its configuration, every leader handler only overwrites existing peers, an accepted AddNode adds the peer with
+   the member, an accepted RemoveNode deletes it. Only side condition: the event is not AddNode of the node's own id *)
+Theorem peer_table_tracks_configuration :
+  forall s ev k crashed st s',
+    run_event_crash (settle s) ev k = Ret (crashed, st, s') -> noself s ev -> peers_ok s -> peers_ok s'.
+Proof. exact peers_ok_step. Qed.
+Print Assumptions peer_table_tracks_configuration.
+
+(* [FULL] invariant (d), all schedules over astep in which no node is asked to add itself: for every leader the ids of its peer table
+   are exactly the members of the configuration it holds, minus itself; so findMajorityIndex counts acknowledgements of members
+   only, and the leader's own index only if it is a member *)
+Theorem leader_acks_come_from_members :
+  forall (a0 a : asys) (sched : list sys_event),
+    ainit a0 -> run asys sys_event astep a0 sched a -> Forall noself_ev sched ->
+    forall i s, get_node i (sy_nodes (fst a)) = Some s -> n_role s = Leader ->
+      forall id, In id (peer_ids s) <-> (memb_of s id /\ id <> n_id s).
+Proof. exact leader_acks_come_from_members_sys. Qed.
+Print Assumptions leader_acks_come_from_members.
+
+From BLB Require Import Raft.MemberAbstract.
+
+(* [PARTIAL] the mutual induction on the term for single-server membership changes, over per-state facts: if the ghost leader-log records
+   G, acknowledgements A, candidacy logs CL and grants GR, GL of a state satisfy the record minv (log matching facts, grant and
+   acknowledgement facts of rounds 2 and 3, plus the three configuration invariants: m_invB every configuration entry that is not
+   the last one of a leader log was committed under its own configuration, m_invF a configuration entry of term t sits above an
+   entry of term t committed under the previous configuration, m_chain consecutive configurations differ by one member) then every
+   candidate of a term U that holds a quorum of grants under the latest configuration of its candidacy log holds every prefix
+   committed in a term below U, where committed means acknowledged by a quorum of the configuration in force at the committing
+   leader. Quorums are per record; no fixed quorum anywhere. OPEN: establishing minv for the reachable states of astep *)
+Theorem leader_completeness_membership_change_partial :
+  forall G A CL GR GL CAST boot,
+    minv G A CL GR GL CAST boot ->
+    forall U T L mi C, cmr G A T L mi C -> T < U -> forall c lc, winl CL GR CAST GL U c lc -> keeps lc (firstn mi L).
+Proof. exact leader_completeness_of_minv. Qed.
+Print Assumptions leader_completeness_membership_change_partial.
+
+(* [PARTIAL] under the same per-state facts, two candidates of one term that both hold a quorum of grants under the latest
+   configurations of their candidacy logs are the same node: their configurations are equal or adjacent (longest common prefix
+   argument with leader completeness for the committed configuration and current-term entries), so the quorums meet in a node
+   that granted twice. This is election safety without the premise adjP. OPEN: the same as above *)
+Theorem election_safety_membership_change_core_partial :
+  forall G A CL GR GL CAST boot,
+    minv G A CL GR GL CAST boot ->
+    forall U a la b lb, winl CL GR CAST GL U a la -> winl CL GR CAST GL U b lb -> a = b.
+Proof. exact election_safety_of_minv. Qed.
+Print Assumptions election_safety_membership_change_core_partial.
+
 (* NOT YET PROVED (statements kept visible; listed in props/C02.json not_yet_proved):
    (1) the premise adjP of election_safety_all_membership_changes_partial, i.e. election_safety_membership_change without
    premise: two nodes that win the same term under configurations C1, C2 hold equal or adjacent configurations. Proved
